@@ -165,6 +165,7 @@ func (t *Tokenizer) Reset() {
 	}
 
 	t.line = 0
+	t.posCache = positionCache{}
 
 	// Don't reset keywords as they're constant
 	t.logger = nil
